@@ -763,7 +763,16 @@ def rule_split_separator_discipline(ctx, rep, rid: str) -> None:
     f = next((g for g in ctx.tree.funcs if g.name == "split" and g.parent is not None and g.parent.name == "_make_string_method"), None)
     if f is None:
         raise AnalysisError("string split native not found")
-    loops = [n for n in f.own_nodes() if isinstance(n, ast.While) and any(isinstance(c, ast.Call) and isinstance(c.func, ast.Attribute) and c.func.attr in ("search", "match") for c in ast.walk(n))]
+    def matcher_loops(g):
+        return [n for n in g.own_nodes() if isinstance(n, ast.While) and any(isinstance(c, ast.Call) and isinstance(c.func, ast.Attribute) and c.func.attr in ("search", "match") for c in ast.walk(n))]
+
+    loops = matcher_loops(f)
+    if not loops:
+        # the regex branch may live in a local helper that split calls (a sibling or a nested function)
+        for cs in ctx.cg.sites_of.get(id(f), []):
+            for g in cs.targets if cs.kind == "resolved" else []:
+                if g.parent is not None and (g.parent is f or g.parent is f.parent) and not isinstance(g.node, ast.Lambda) and matcher_loops(g):
+                    f, loops = g, matcher_loops(g)
     if not loops:
         raise AnalysisError("split: the matcher loop was not found")
     loop = loops[0]
